@@ -333,6 +333,9 @@ HybWhy(s, spec) ==
     IF ~s.elt.on THEN "no_eltorito"
     ELSE IF s.elt.entries[1].count # 4 THEN "load_size"
     ELSE IF spec.efi = "no" /\ spec.mac THEN "mac_needs_efi"
+    \* MBR partition entry 2 holds the EFI image and entry 3 the Mac image: the ISO partition cannot
+    \* use them (it would leave the image without an active partition)
+    ELSE IF (EffEfi(spec) /\ spec.entry = 2) \/ (spec.mac /\ spec.entry \in {2, 3}) THEN "entry_collides"
     ELSE IF ~BlobInfo[s.elt.entries[1].blob].sig THEN "no_signature"
     ELSE IF spec.sectors < 1 \/ spec.sectors > 63 THEN "bad_sectors"
     ELSE IF spec.heads < 1 \/ spec.heads > 256 THEN "bad_heads"
